@@ -152,6 +152,20 @@ def handle (op : String) (j : Json) : Except String Json := do
   | "c01.read_int" => .ok (resJ intToJson (readInt (← gS j "s")))
   | "c01.read_float" => .ok (resJ ratToJson (readFloat (← gS j "s")))
   | "c01.strip" => .ok (okJson (sJ (strip (← gS j "s"))))
+  | "c01.lex" =>
+    -- int() / float() / the non-finite recogniser on a list of tokens
+    let toks ← getArr strOfJ j "toks"
+    let one (t : Str) : Json :=
+      obj [("int", resJ intToJson (readInt t)), ("float", resJ ratToJson (readFloat t)),
+           ("nonfinite", match floatNonFinite t with
+              | some .posInf => Json.str "inf" | some .negInf => Json.str "-inf" | some .nan => Json.str "nan"
+              | none => Json.null)]
+    .ok (okJson (listToJson one toks))
+  | "c01.lex_tables" =>
+    -- the tables inside the number reader: runs of decimal digits, white space of `str.strip()` (all code points)
+    let ws := (List.range 0x3001).filter (fun n => isWs (Char.ofNat n))
+    .ok (okJson (obj [("dec_zeros", listToJson (fun (n : Nat) => intToJson (n : Int)) decZeros),
+                      ("ws", listToJson (fun (n : Nat) => intToJson (n : Int)) ws)]))
   -- lines
   | "c01.classify" =>
     let s ← gS j "s"
